@@ -105,7 +105,7 @@ theorem startOk_dispatchBody {w : World} (t : HTag) (h : StartOk w)
     have hrk : ∀ k, StartOk (removeAwaitKind w (t.item.b - 1) k).1 := fun k =>
       h.of_same (by simp) (fun q => by simp)
     have hca : StartOk (cancelAwaiteds w (t.item.b - 1)) :=
-      StartOk.of_tgt (ec_cancelAwaiteds (startTgt_closed _) noStart_notStart.event noStart_notStart.res _ _ h)
+      StartOk.of_tgt (ec_cancelAwaiteds (startTgt_closed _) noStart_notStart.event ⟨noStart_notStart.res, noStart_notStart.cond⟩ _ _ h)
         (fun q hq => by rw [cancelAwaiteds_status] at hq; exact hq)
     repeat' split
     all_goals with_reducible first
